@@ -83,6 +83,10 @@ def run(chk, build, replay=None):
             for tr, st, detail in r:
                 if st == "differs" and major >= (3, 12) and any(m in detail for m in ("cannot access local variable", "cannot access free variable")):
                     st = "attributed-to-cpython-pep709-defect"
+                if st == "convert-error" and detail.split(":")[0] in ("SyntaxError", "RuntimeError", "NotImplementedError"):
+                    # an explicit refusal on this host (e.g. the project's unparser refuses, before 3.12, an f-string whose text
+                    # contains a backslash): the property is about the scripts the converter accepts
+                    st = "refused-on-this-host"
                 c[st] = c.get(st, 0) + 1
                 if st in ("differs", "not-an-expression", "newline", "convert-error"):
                     chk.add_violation(f"the converted program behaves differently from the script on CPython {v}",
